@@ -262,6 +262,9 @@ where
 				if idx % only_every.max(1) != 0 {
 					continue;
 				}
+				if streamchk::too_many_hangs() {
+					return;
+				}
 				if let Some((_, v)) = parse_tlc_line(&line) {
 					item_guard_desc(tag, line.get(..2000).unwrap_or(&line), || f(idx, v));
 				}
